@@ -95,4 +95,33 @@ def layoutFixedDoc (areas : List Rect) (pages : List (List FixedTree)) :
     List (Except PyErr (List (Nat × Rat × Rat))) :=
   (List.range pages.length).map (fun i => layoutTrees (areas.getD i default) (pageTrees pages i))
 
+/-! ### The content of a fixed box at the page bottom (`absolute_block`, `_in_flow_layout`)
+
+`make_page` lays the page's own fixed boxes out with `bottom_space = 0`, `layout_fixed_boxes` repeats them with
+`bottom_space = -inf`; `absolute_block` adds the translation it is going to apply
+(`bottom_space += -box.position_y if translate_box_height else translate_y`) and lays the content out at the
+static position; `_in_flow_layout` keeps a child block unless it may break (`page_is_empty_with_no_children` is true
+for the first child) and its content bottom overflows `context.page_bottom - bottom_space`. -/
+
+/-- `bottom_space` inside `absolute_block` (`none` = `-inf`). -/
+def absBottomSpace (base : Option Rat) (r : VBox × Bool × Rat) : Option Rat :=
+  base.map (fun b => b + (if r.2.1 then -r.1.posY else r.2.2))
+
+/-- How many of the in-flow child blocks (heights given; no margins, borders or paddings) stay in this fragment:
+`y` = position of the next child, `first` = no child laid out yet, `limit` = `page_bottom - bottom_space`. -/
+def keptFrom (limit : Option Rat) : Rat → Bool → List Rat → Nat
+  | _, _, [] => 0
+  | y, first, h :: hs =>
+    if !first && (match limit with
+        | some l => decide (y + h > l)
+        | none => false) then 0
+    else 1 + keptFrom limit (y + h) false hs
+
+/-- The number of child blocks of a fixed box drawn in its (first) fragment: `base = some 0` on the page the box is
+declared on (`make_page`), `none` on every other page (`layout_fixed_boxes`). -/
+def fixedKept (base : Option Rat) (pageBottom : Rat) (vb : VBox) (cbY cbH : Rat) (heights : List Rat) : Nat :=
+  let r := absoluteHeight vb cbY cbH
+  keptFrom ((absBottomSpace base r).map (fun bs => pageBottom - bs))
+    (vb.posY + autoZero r.1.mt + vb.bt + vb.pt) true heights
+
 end Wp.Positioned
